@@ -189,6 +189,26 @@ impl<T: InternalVertexInfo + super::sealed::__Sealed> VertexInfo for T {
                 .map(RequiredProperty::new)
         }));
 
+        // Tags on this vertex's properties may also be used inside the folds of this component
+        // (at any depth, in which case the fold imports the tag) or by their fold-count filters.
+        let properties = properties.chain(current_component.folds.values().flat_map(|fold| {
+            let imported_tags = fold.imported_tags.iter().filter_map(|field| match field {
+                FieldRef::ContextField(ctx) if current_vertex.vid == ctx.vertex_id => {
+                    Some(ctx.field_name.clone())
+                }
+                _ => None,
+            });
+            let post_filter_tags = fold.post_filters.iter().filter_map(|f| match f.right() {
+                Some(Argument::Tag(FieldRef::ContextField(ctx)))
+                    if current_vertex.vid == ctx.vertex_id =>
+                {
+                    Some(ctx.field_name.clone())
+                }
+                _ => None,
+            });
+            imported_tags.chain(post_filter_tags).map(RequiredProperty::new)
+        }));
+
         let mut seen_property = HashSet::new();
         Box::new(properties.filter(move |r| seen_property.insert(r.name.clone())))
     }
